@@ -28,8 +28,10 @@ def run(tier: str, keep: bool = False) -> int:
         r.model("crcK3", 'FamAll(4, {1, 3}, {"CRC32"})', K=3, faults=ALL, invariants=["C01"], timeout=2400)
     props = ["C01", "C06", "C10", "C15"]
     r.schedules("schedK1", 'FamAll(3, {0, 1, 3}, {"CRC32", "CRC32C"})', props, K=1, faults=ALL)
-    r.schedules("schedK2", 'FamAll(3, {1, 3}, {"CRC32"})', props, K=2, faults=ALL, limit=700 if q else None)
-    r.schedules("weakK2", weakfam, props, K=2, faults=LINK, limit=300 if q else None)
+    r.schedules("schedK2", 'FamAll(3, {1, 3}, {"CRC32"})', props, K=2, faults=["drop", "dup", "swap", "flip", "wrej"], limit=700 if q else None)
+    r.schedules("weakK2", weakfam, props, K=2, faults=["drop", "dup", "swap"], limit=300 if q else 20000)
+    if not q:
+        r.schedules("holdK2", '{c \\in FamAll(3, {3}, {"CRC32"}) : ~c.closure}', props, K=2, faults=["hold", "flip", "drop"], limit=30000, timeout=2400)
     r.schedules("simFree", 'FamAll(3, {2, 4}, {"CRC32", "CRC32C"})', props, K=3, faults=ALL + ["delay"], pacing="free",
                 ticks=[400, 1000], simulate=dict(num=300 if q else 6000, depth=100), maxhist=100, workers=4)
     r.judge()
